@@ -545,6 +545,9 @@ func (s *simState) unmarkedUncovered() []uint64 {
 func genC34(c *hlib.Ctx) {
 	r := c.R
 	n := c.N(700, 30000)
+	if c.Tier == "search" {
+		n = 1500 // the search after a broken proof/tie: a bounded extra budget
+	}
 	for i := 0; i < n; i++ {
 		// delays ≡ 5 (mod 10); the store's ignore delay is half the delete delay as the flags' help recommends
 		dd := int64(10*r.Range(20, 400) + 5)
